@@ -6,7 +6,7 @@ FUNCTIONS = [
     "batchie.data.ExperimentSpace.save_h5 / load_h5 / from_screen",
 ]
 BOUNDS = {
-    "quick": "screens of 2 rows x arity 1-2 built through batchie's own encoder from symbolic names (order-isomorphism classes), symbolic doses/observations (float32 casts visible), symbolic per-plate mask, with a mapping that is a strict superset of the rows (+1 row); 2 save/load cycles",
+    "quick": "screens of 2 rows x arity 1-2 built through batchie's own encoder from symbolic names (order-isomorphism classes), symbolic doses/observations (float32 casts visible), symbolic per-plate mask, with a mapping that is a strict superset of the rows (+1 row); 2 save/load cycles; one screen built without outcomes whose plates are observed afterwards (set_observed); explicit mappings over exactly the rows' entities with ids in reverse name order, and of 300 entries",
     "thorough": "3 rows, +2 mapping rows, 3 cycles, arity 1-2",
 }
 ASSUMPTIONS = [
